@@ -358,11 +358,13 @@ func build(a *A, l *L) *yg.Stmt {
 		}
 		s.Kids = append(s.Kids, build(k, kl))
 	}
+	// a comment directly behind an unquoted argument ends it
+	s.Abut = len(s.Pieces) > 0 && s.Pieces[len(s.Pieces)-1].Q == "u" && yg.Abuts(s.Pieces[len(s.Pieces)-1].Raw, s.T2)
 	return s
 }
 
 func genCase(t *rapid.T) Case {
-	g := &yg.G{T: t}
+	g := &yg.G{T: t, Abut: true}
 	root := genRoot(g)
 	c := Case{Root: root}
 	n := 2 + g.Pick(2, "nlayouts")
@@ -416,6 +418,21 @@ func checkCase(c Case) fw.Outcome {
 	nstmts, maxDepth, comments, quoted := 0, 0, false, false
 	for li, l := range c.Layouts {
 		st := build(c.Root, l)
+		var abuts func(s *yg.Stmt) bool
+		abuts = func(s *yg.Stmt) bool {
+			if s.Abut {
+				return true
+			}
+			for _, k := range s.Kids {
+				if abuts(k) {
+					return true
+				}
+			}
+			return false
+		}
+		if abuts(st) {
+			out.Labels = append(out.Labels, "comment-abuts-unquoted")
+		}
 		// what follows the last token: a line break, nothing, or a comment - a line comment also as the very last thing
 		// of the text, without a line break after it
 		text, infos := yg.Render([]*yg.Stmt{st}, []string{"\n", "", " // end", "\n// last line", " /* c */", "\n//", "\r\n// x\r"}[(li+len(c.Layouts))%7])
